@@ -130,7 +130,10 @@ def prepare(run, it, rng, pi):
     }
 
 
-def replay(run, p, f0, hist, idx):
+def replay(run, p, f0, hist, idx, blind_after=None):
+    """`blind_after` (a trace of the same history): nothing is read between the actions - the front end only
+    evaluates the rows it shows - and the session is observed once at the end; the earlier observations are
+    those of the trace given."""
     names = ktree.sym_names(p["prog"])
     conf = os.path.join(p["dir"], "sdkconfig_%d" % idx)
     for junk in (conf, conf + ".old"):
@@ -148,8 +151,14 @@ def replay(run, p, f0, hist, idx):
         state, stub = menucheck.start_session(run, p["text"], conf, renames=p.get("renames_text"))
         hand = f0 > 0 and not p["inits"][f0 - 1]["tool"]
         al = {o: (r["new"], r["inv"]) for o, r in p["renames"].items()}
-        tr["obs"].append(menucheck.observe(run, state, names, p["info"], lenient=hand, aliases=al))
-        for k in hist:
+        if blind_after is not None:
+            tr["blind"] = True
+            for k in hist:
+                menucheck.do_action(run, state, stub, p["prog"], p["acts"][k - 1], p["files_text"], paths)
+            tr["obs"] = blind_after["obs"][:-1] + [menucheck.observe(run, state, names, p["info"], lenient=hand and not state.saved, aliases=al)]
+        else:
+            tr["obs"].append(menucheck.observe(run, state, names, p["info"], lenient=hand, aliases=al))
+        for k in hist if blind_after is None else []:
             menucheck.do_action(run, state, stub, p["prog"], p["acts"][k - 1], p["files_text"], paths)
             tr["obs"].append(menucheck.observe(run, state, names, p["info"], lenient=hand and not state.saved, aliases=al))
     except Exception as e:
@@ -181,6 +190,7 @@ def main(run):
         items = lat[::3] + ktree.generate(run.seed + 4100, 150)
         maxlen, cap, nwalk = 3, 3000, 150
     nlong = 0
+    nblind = [0]
     progs = [prepare(run, it, random.Random("%d/m%d" % (run.seed, pi)), pi) for pi, it in enumerate(items)]
     strings = set()
     for p in progs:
@@ -195,7 +205,7 @@ def main(run):
         for p in progs:
             e = {"prog": p["prog"], "ord": p["ord"], "inits": [{"lines": i_["lines"], "tool": i_["tool"]} for i_ in p["inits"]], "files": p["files"], "acts": p["acts"], "menus": p["menus"], "renames": p["renames"]}
             if with_traces:
-                e["traces"] = [{k: v for k, v in tr.items() if k not in ("exception", "where")} for tr in p["traces"]]
+                e["traces"] = [{k: v for k, v in tr.items() if k not in ("exception", "where", "blind")} for tr in p["traces"]]
             out.append(e)
         return out
 
@@ -238,7 +248,14 @@ def main(run):
         hs = list(hs) + [(wr.randrange(len(p["inits"]) + 1), [wr.randrange(len(p["acts"])) + 1 for _ in range(wr.randint(4, 7))]) for _ in range(nwalk)]
         nlong += nwalk
         p["traces"] = [replay(run, p, f0, h, j) for j, (f0, h) in enumerate(hs)]
-        total += len(hs)
+        # the same sessions without anything being read between the actions (sessions with a save, two actions or more)
+        blind = [(j, tr) for j, tr in enumerate(p["traces"]) if not tr["err"] and len(tr["h"]) >= 2 and any(p["acts"][k - 1]["a"] == "save" for k in tr["h"])]
+        if len(blind) > cap // 2:
+            step = len(blind) / float(cap // 2)
+            blind = [blind[int(j * step)] for j in range(cap // 2)]
+        p["traces"] += [replay(run, p, tr["f0"], tr["h"], 100000 + j, blind_after=tr) for j, tr in blind]
+        nblind[0] += len(blind)
+        total += len(hs) + len(blind)
         for tr in p["traces"]:
             if tr["err"]:
                 run.report(
@@ -248,6 +265,7 @@ def main(run):
                 )
     run.add("evaluations", total)
     run.cov["long_walks"] = nlong
+    run.cov["sessions_replayed_without_intermediate_reads"] = nblind[0]
     with open(path, "w") as f:
         json.dump({"tab": tab, "maxlen": maxlen, "progs": payload(True)}, f)
     res2 = run_tlc("MC_Menu16Check", "MC_Menu16Check.cfg", run, env={"MENU_DATA": path}, workers=16, timeout=3000, tag="m16c")
@@ -267,8 +285,10 @@ def main(run):
         tags = {tag}
         if init is not None and not init["tool"]:
             tags.add("hand-edited-initial-file")
+        if tr.get("blind"):
+            tags.add("nothing-read-between-actions")
         run.report(
-            "%s at step %d of %s (initial file: %s): %s vs %s" % (tag, k_, acts, "absent" if init is None else ("tool-written" if init["tool"] else "hand-edited"), str(a)[:300], str(b)[:300]),
+            "%s at step %d of %s%s (initial file: %s): %s vs %s" % (tag, k_, acts, " with nothing read between the actions" if tr.get("blind") else "", "absent" if init is None else ("tool-written" if init["tool"] else "hand-edited"), str(a)[:300], str(b)[:300]),
             {"kconfig": p["text"], "initial_file": init["text"] if init else None, "actions": acts, "alt_files": p["files_text"], "clause": tag, "step": k_, "expected": a, "observed": b},
             tags,
         )
